@@ -23,7 +23,7 @@ TReset == Is("Reset") /\ Step /\ objs' = <<>> /\ last' = "ok"
 TGet == Is("Get") /\ Step /\ Ev.idOK /\ Ev.obj >= 0 /\ Create(Ev.obj)
 TGetUnknown == Is("GetUnknown") /\ Step /\ Ev.null /\ UNCHANGED vars
 \* every registered parameter with its default: the default must be accepted as a domain member (invariant AllInDomain)
-TParam == /\ Is("Param") /\ Step /\ Ev.kind # "none"
+TParam == /\ Is("Param") /\ Step /\ Ev.kind # "none" /\ Ev.typedOK     \* (enumerations: the typed read is the member with the stored name)
           /\ Ev.obj \in DOMAIN objs /\ Ev.name \notin DOMAIN objs[Ev.obj]
           /\ objs' = [objs EXCEPT ![Ev.obj] = @ @@ (Ev.name :> Canon(Rec(Ev, Arity(Ev))))] /\ last' = "ok"
 TLookup == Is("Lookup") /\ Step /\ Lookup(Ev.obj, Ev.name) /\ Ev.threw = (last' = "threw") /\ Ev.null = Ev.threw
@@ -35,15 +35,18 @@ TAssignOn == /\ Is("AssignOn") /\ Step /\ Ev.obj \in DOMAIN objs /\ Ev.name \in 
              /\ LET n == Arity(Ev)
                     old == Rec(Ev, n)
                     new == [old EXCEPT !.vals = IF n = 0 THEN <<>> ELSE SubSeq(Ev.r, n + 3, 2 * n + 2), !.text = Ev.newtext]
-                IN /\ objs[Ev.obj][Ev.name] = Canon(old)
+                IN /\ objs[Ev.obj][Ev.name] = Canon(old) /\ Ev.typedOK
                    /\ Ev.otherUnchanged /\ ~Ev.threw /\ (Ev.changed => Ev.differs)
                    /\ objs' = [objs EXCEPT ![Ev.obj][Ev.name] = Canon(new)] /\ last' = "ok"
 \* an object still holds what the specification says it holds (in particular after its clone was modified)
 TReadOn == /\ Is("ReadOn") /\ Step /\ Ev.obj \in DOMAIN objs /\ Ev.name \in DOMAIN objs[Ev.obj]
-           /\ objs[Ev.obj][Ev.name] = Canon(Rec(Ev, Arity(Ev))) /\ UNCHANGED vars
+           /\ objs[Ev.obj][Ev.name] = Canon(Rec(Ev, Arity(Ev))) /\ Ev.typedOK /\ UNCHANGED vars
+
+\* every member of an enumeration's domain is accepted by name and read back as assigned (stored name, typed read)
+TEnumAll == Is("EnumAll") /\ Step /\ Ev.obj \in DOMAIN objs /\ Ev.name \in DOMAIN objs[Ev.obj] /\ Ev.ok /\ UNCHANGED vars
 
 TraceInit == l = 1 /\ Init
-TraceNext == TReset \/ TGet \/ TGetUnknown \/ TParam \/ TLookup \/ TClone \/ TAssignOn \/ TReadOn
+TraceNext == TEnumAll \/ TReset \/ TGet \/ TGetUnknown \/ TParam \/ TLookup \/ TClone \/ TAssignOn \/ TReadOn
 Accepted == LET d == TLCGet("stats").diameter IN
             IF d - 1 = Len(TraceLog) THEN TRUE ELSE PrintT(<<"REJECTED_AT", d>>) /\ FALSE
 ========================================================================================
